@@ -1,8 +1,101 @@
+import PyGam.Model.Exposure
 import PyGam.Drv.Common
 namespace PyGam.Drv.C19
-open PyGam PyGam.Drv
+open PyGam PyGam.Drv PyGam.Exposure
 
-/-- operations of the C19 model driver (`C19 <op> <args…>`); `none` ↦ `bad-op` -/
+/-- split a token list at the separator `|` -/
+def splitBar (l : List String) : List (List String) :=
+  let rec go : List String → List String → List (List String) → List (List String)
+    | [], cur, acc => (cur.reverse :: acc).reverse
+    | t :: ts, cur, acc => if t = "|" then go ts [] (cur.reverse :: acc) else go ts (t :: cur) acc
+  go l [] []
+
+/-- `none` (the token) ↦ Python `None`; otherwise a vector of exactly `n` rationals -/
+def optRats? (n : Nat) : List String → Option (Option (Nat → Rat))
+  | ["none"] => some none
+  | l => do
+      let v ← parseRats? l
+      if v.length = n then some (some (listToVec v)) else none
+
+def optFloats? (n : Nat) : List String → Option (Option (Nat → Float))
+  | ["none"] => some none
+  | l => do
+      let v ← parseFloats? l
+      if v.length = n then some (some (listToVec v)) else none
+
+def ratVec? (n : Nat) (l : List String) : Option (Nat → Rat) := do
+  let v ← parseRats? l
+  if v.length = n then some (listToVec v) else none
+
+def floatVec? (n : Nat) (l : List String) : Option (Nat → Float) := do
+  let v ← parseFloats? l
+  if v.length = n then some (listToVec v) else none
+
+def roundQ (q : Rat) : Rat := ((roundHalfEven q : Int) : Rat)
+
+/-- operations of the C19 model driver (`C19 <op> <args…>`); `none` ↦ `bad-op`
+
+* `etw n | y… | e…/none | w…/none`      → `rates… | weights…`  (exact rationals, cast = `castF32`)
+* `fit n | y… | e…/none | w…/none`      → the arguments `poissonFit` hands to the base fit (same format)
+* `predict n | rate… | e…/none`         → `rate_i * castF32 e_i …`
+* `counts n | y… | e…/none | w…/none`   → `np.round(y/e * (w*e))…` (exact)
+* `cast32 q`                            → `castF32 q`
+* `round q`                             → `roundHalfEven q`
+* `loglik n | mu… | y… | e…/none | w…/none` (doubles as bit patterns) → kernel sum (double) `|` counts…
+* `dev y mu` (doubles) → `poissonDev y mu`;  `wdev e y r` → `e * poissonDev (y/e) r` and `poissonDev y (e*r)`
+-/
 def handle : List String → Option String
+  | "etw" :: n :: "|" :: rest => do
+      let n ← n.toNat?
+      match splitBar rest with
+      | [ys, es, ws] =>
+          let y ← ratVec? n ys; let e ← optRats? n es; let w ← optRats? n ws
+          let r := exposureToWeights castF32 y e w
+          some (showRatList (vecToList n r.1) ++ " | " ++ showRatList (vecToList n r.2))
+      | _ => none
+  | "fit" :: n :: "|" :: rest => do
+      let n ← n.toNat?
+      match splitBar rest with
+      | [ys, es, ws] =>
+          let y ← ratVec? n ys; let e ← optRats? n es; let w ← optRats? n ws
+          some (poissonFit (fun r ww => showRatList (vecToList n r) ++ " | " ++ showRatList (vecToList n ww))
+                  castF32 y e w)
+      | _ => none
+  | "predict" :: n :: "|" :: rest => do
+      let n ← n.toNat?
+      match splitBar rest with
+      | [rs, es] =>
+          let r ← ratVec? n rs; let e ← optRats? n es
+          some (showRatList (vecToList n (predictExposure castF32 r e)))
+      | _ => none
+  | "counts" :: n :: "|" :: rest => do
+      let n ← n.toNat?
+      match splitBar rest with
+      | [ys, es, ws] =>
+          let y ← ratVec? n ys; let e ← optRats? n es; let w ← optRats? n ws
+          some (showRatList (vecToList n (loglikCounts castF32 roundQ y e w)))
+      | _ => none
+  | ["cast32", q] => do
+      let q ← parseRat? q
+      some (showRat (castF32 q))
+  | ["round", q] => do
+      let q ← parseRat? q
+      some (toString (roundHalfEven q))
+  | "loglik" :: n :: "|" :: rest => do
+      let n ← n.toNat?
+      match splitBar rest with
+      | [ms, ys, es, ws] =>
+          let mu ← floatVec? n ms; let y ← floatVec? n ys
+          let e ← optFloats? n es; let w ← optFloats? n ws
+          let k := loglikKernel castF32F roundHalfEvenF n mu y e w
+          let c := loglikCounts castF32F roundHalfEvenF y e w
+          some (showFloat k ++ " | " ++ showFloatList (vecToList n c))
+      | _ => none
+  | ["dev", y, mu] => do
+      let y ← parseFloat? y; let mu ← parseFloat? mu
+      some (showFloat (poissonDev y mu))
+  | ["wdev", e, y, r] => do
+      let e ← parseFloat? e; let y ← parseFloat? y; let r ← parseFloat? r
+      some (showFloat (e * poissonDev (y / e) r) ++ " " ++ showFloat (poissonDev y (e * r)))
   | _ => none
 end PyGam.Drv.C19
